@@ -153,6 +153,9 @@ func (tx *FnTx) exec(in ssa.Instruction, st *State) *State {
 		}
 		return st
 	case *ssa.Convert:
+		if n := tx.convertAlloc(x, st); n != nil {
+			return n
+		}
 		tx.convert(x, st)
 		return st
 	case *ssa.TypeAssert:
@@ -564,6 +567,34 @@ func (tx *FnTx) unop(x *ssa.UnOp, st *State) *State {
 	return st
 }
 
+// convertAlloc: string -> []byte allocates: the result is a fresh object of the string's length (content: the string's
+// bytes, uninterpreted). Returns nil for every other conversion.
+func (tx *FnTx) convertAlloc(x *ssa.Convert, st *State) *State {
+	if tx.d.sortOf(x.X.Type()) != "Str" || tx.d.sortOf(x.Type()) != "Slice" {
+		return nil
+	}
+	sl, ok := x.Type().Underlying().(*types.Slice)
+	if !ok {
+		return nil
+	}
+	if b, ok := sl.Elem().Underlying().(*types.Basic); !ok || b.Kind() != types.Uint8 {
+		return nil
+	}
+	v := tx.val(x.X)
+	obj := tx.d.fresh("obj_"+x.Name(), "Int")
+	tx.assume("(= " + obj + " " + st.alloc + ")")
+	n := st.clone()
+	n.alloc = "(+ " + obj + " 1)"
+	comp := tx.h.elemComp(sl.Elem())
+	ht := tx.h.heapTerm(st, comp)
+	tx.d.declFun("strbytes", []string{"Str"}, "(Array Int Int)")
+	n.heaps[comp.Name] = sapp("store", ht, obj, sapp("strbytes", v.S))
+	tx.assume("(>= (strlen " + v.S + ") 0)")
+	tx.define(x, fmt.Sprintf("(mk-slice %s 0 (strlen %s) (strlen %s))", obj, v.S, v.S))
+	tx.note("string->[]byte conversion: fresh slice of the string's length, content uninterpreted")
+	return n
+}
+
 func (tx *FnTx) convert(x *ssa.Convert, st *State) {
 	v := tx.val(x.X)
 	from := x.X.Type()
@@ -618,6 +649,9 @@ func (tx *FnTx) convert(x *ssa.Convert, st *State) {
 		if ts == "Slice" {
 			tx.assume("(= (s-len " + t.S + ") (strlen " + v.S + "))")
 			tx.note("string->[]byte conversion: fresh slice with uninterpreted content")
+		}
+		if fs == "Slice" && ts == "Str" {
+			tx.assume("(= (strlen " + t.S + ") (s-len " + v.S + "))")
 		}
 	default:
 		tx.define(x, v.S)
